@@ -24,6 +24,7 @@ import (
 	"math/rand"
 	"os"
 	"path/filepath"
+	"sort"
 	"strings"
 	"sync"
 	"sync/atomic"
@@ -900,7 +901,75 @@ var vfC16Observed = []vfC16Obs{
 		[]string{"/ip6/2606:4700::1111/tcp/4001", "/ip6/2606:4700::1111/udp/4001/quic-v1"},
 		[]string{"/ip6/2606:4700::1112/tcp/4001", "/ip4/1.2.3.4/tcp/4001", "/ip6/2606:4700:0:1::1111/tcp/5000", "/dnsaddr/example.net"}},
 }
-var vfC16Priv = []string{"/ip4/192.168.1.5/tcp/4001", "/ip4/127.0.0.1/tcp/4001", "/ip4/10.1.2.3/udp/4001/quic-v1", "/ip6/::1/tcp/4001", "/ip6/fe80::1/tcp/4001", "/ip4/172.16.9.9/tcp/4001", "/ip6/fd00::5/udp/4001/quic-v1"}
+// The harness's own table of addresses that are NOT public (the statement: "a request naming no public,
+// dialable address is refused without any dial").  Listed, not computed with the code's predicate: every
+// special-purpose IPv4 / IPv6 registry block that is not globally routable, IPv4-mapped private and
+// loopback addresses, and special-use dns names; crossed with the transports.  (Blocks on which the
+// meaning of "public" is debatable - NAT64, 6to4, IPv4-mapped public addresses, 192.0.0.64/26.. - are in
+// neither table.)
+var vfC16NonPublicIP4 = []string{
+	"0.0.0.0", "0.1.2.3", // "this network" 0/8
+	"10.0.0.1", "10.255.255.254", // RFC 1918
+	"100.64.0.1", "100.127.255.254", // shared address space 100.64/10
+	"127.0.0.1", "127.9.9.9", // loopback
+	"169.254.1.1",                 // link local
+	"172.16.9.9", "172.31.255.254", // RFC 1918
+	"192.0.0.1", "192.0.0.8", // IETF protocol assignments
+	"192.0.2.1",       // TEST-NET-1
+	"192.88.99.1",     // 6to4 relay anycast (deprecated)
+	"192.168.1.5",     // RFC 1918
+	"198.18.0.1", "198.19.255.254", // benchmarking 198.18/15
+	"198.51.100.7", // TEST-NET-2
+	"203.0.113.9",  // TEST-NET-3
+	"224.0.0.1", "239.255.255.250", // multicast 224/4
+	"240.0.0.1", "254.1.2.3", // reserved 240/4
+	"255.255.255.255", // limited broadcast
+}
+var vfC16NonPublicIP6 = []string{
+	"::", "::1", // unspecified, loopback
+	"::ffff:10.0.0.1", "::ffff:127.0.0.1", "::ffff:192.168.1.1", "::ffff:169.254.1.1", // IPv4-mapped private / loopback
+	"100::1",                    // discard-only
+	"2001:db8::1", "2001:db8:ffff::9", // documentation
+	"fc00::1", "fd12:3456:789a::1", // unique local fc00::/7
+	"fe80::1", "febf::1", // link local fe80::/10
+	"ff02::1", "ff0e::1234", "ff05::2", // multicast ff00::/8
+}
+var vfC16NonPublicDNS = []string{"localhost", "foo.localhost", "printer.local", "nas.home.arpa", "db.test", "nothing.invalid", "4.3.2.1.in-addr.arpa", "1.0.0.0.ip6.arpa"}
+var vfC16Transports = []string{"/tcp/4001", "/udp/4001/quic-v1", "/udp/4001/quic-v1/webtransport", "/udp/4001/webrtc-direct", "/tcp/443/tls/ws", "/tcp/80/ws"}
+
+// vfC16Priv is the cross product, parsed once; the replay cycles through it so that every entry is used.
+var vfC16Priv = func() []string {
+	var out []string
+	add := func(prefix string) {
+		for _, tr := range vfC16Transports {
+			a := prefix + tr
+			if _, err := ma.NewMultiaddr(a); err != nil {
+				panic("vf: non-public table entry does not parse: " + a)
+			}
+			out = append(out, a)
+		}
+	}
+	for _, ip := range vfC16NonPublicIP4 {
+		add("/ip4/" + ip)
+	}
+	for _, ip := range vfC16NonPublicIP6 {
+		add("/ip6/" + ip)
+	}
+	for i, n := range vfC16NonPublicDNS {
+		add([]string{"/dns4/", "/dns6/", "/dns/"}[i%3] + n)
+	}
+	return out
+}()
+var vfC16PrivUsed sync.Map
+
+// vfC16NextPriv hands out the non-public addresses round robin (all walks together cover the table).
+func (s *vfC16Srv) nextPriv() string {
+	s.privNext++
+	a := vfC16Priv[s.privNext%len(vfC16Priv)]
+	vfC16PrivUsed.Store(a, true)
+	return a
+}
+
 var vfC16Undial = []string{"/ip4/9.9.9.9/tcp/9999", "/ip4/1.2.3.4/tcp/9999", "/ip4/8.8.4.4/udp/9999/quic-v1", "/ip6/2606:4700::1111/tcp/9999", "/ip4/5.6.7.8/udp/9999/quic-v1"}
 var vfC16Malformed = [][]byte{{}, {0xff, 0xff, 0x01}, {0x04, 1, 2, 3}, {0x06, 0x1f}, {0x04, 1, 2, 3, 4, 0x06}, {0x00}, []byte("/ip4/1.2.3.4/tcp/1")}
 
@@ -929,6 +998,7 @@ type vfC16Req struct {
 	dials    []vfC16DialEv
 	nevt     int
 	normal   bool // a well-formed DialRequest was sent
+	ddCounted bool
 }
 
 // vfC16Run: n messages of raw stream bytes each.  A well-formed DialDataResponse is credited with its
@@ -993,7 +1063,8 @@ type vfC16Srv struct {
 	ddrpm   int
 	cur     *vfC16Req
 	accLog  []time.Time // requests not answered E_REQUEST_REJECTED (L1, server level)
-	ddLog   []time.Time // DialDataRequests sent
+	ddLog   []time.Time // LEDGER: dial-data requests served (the server asked for data and went on to dial back)
+	privNext int
 	maxWait time.Duration
 	stats   map[string]int
 }
@@ -1007,6 +1078,7 @@ func vfC16NewSrv(t *testing.T, rpm, ddrpm, conc int, seed int64) *vfC16Srv {
 	set.metricsTracer = s.tracer
 	s.srv = newServer(s.dialer, set)
 	s.peerID = peer.ID("vf-requester")
+	s.privNext = int(uint64(seed*131) % uint64(len(vfC16Priv)))
 	return s
 }
 
@@ -1070,7 +1142,7 @@ func (s *vfC16Srv) build(q *vfC16Req, obs vfC16Obs, classes []string, maxAddrs i
 		var b []byte
 		switch c {
 		case "priv":
-			b = ma.StringCast(vfC16Priv[s.rnd.Intn(len(vfC16Priv))]).Bytes()
+			b = ma.StringCast(s.nextPriv()).Bytes()
 		case "undial":
 			b = ma.StringCast(vfC16Undial[s.rnd.Intn(len(vfC16Undial))]).Bytes()
 		case "malformed":
@@ -1186,6 +1258,16 @@ func (s *vfC16Srv) checkDials(q *vfC16Req) (string, string, any) {
 	q.dials = append(q.dials, evs...)
 	for _, e := range evs {
 		s.stats["dialer_"+e.Kind]++
+		if q.asked > 0 && !q.ddCounted {
+			// the ledger of the dial-data limit: a request for which the server asked for dial data and which it
+			// then served.  (A request whose client never paid is not counted: the most lenient reading.)
+			q.ddCounted = true
+			now := time.Now()
+			s.ddLog = append(vfC16Trim(s.ddLog, now), now)
+			if d, _ := vfC16InWindow(s.ddLog, now); d > s.ddrpm {
+				return "server-window-dialdata", fmt.Sprintf("%d requests that required dial data served within one minute, DialDataRPM %d", d, s.ddrpm), e
+			}
+		}
 		if e.Peer != string(s.peerID) {
 			return "dial-wrong-peer", fmt.Sprintf("%s to peer %q, requester is %q", e.Kind, e.Peer, s.peerID), e
 		}
@@ -1240,7 +1322,6 @@ func (s *vfC16Srv) observe(q *vfC16Req) (resp string, cls, what string, ev any) 
 		case m.GetDialDataRequest() != nil:
 			dr := m.GetDialDataRequest()
 			q.asked, q.askedIdx, q.baseRead = int64(dr.NumBytes), dr.AddrIdx, q.st.nread()
-			s.ddLog = append(s.ddLog, time.Now())
 			resp = "DATAREQ"
 			s.stats["dial_data_requests"]++
 			if v, ok := s.stats["asked_min"]; !ok || int(dr.NumBytes) < v {
@@ -1251,9 +1332,6 @@ func (s *vfC16Srv) observe(q *vfC16Req) (resp string, cls, what string, ev any) 
 			}
 			if dr.NumBytes < 30_000 || dr.NumBytes > 100_000 {
 				return resp, "asked-bytes-out-of-range", fmt.Sprintf("server asked for %d bytes of dial data (statement: 30 to 100 kB)", dr.NumBytes), nil
-			}
-			if d, _ := vfC16InWindow(s.ddLog, time.Now()); d > s.ddrpm {
-				return resp, "server-window-dialdata", fmt.Sprintf("%d dial-data requests within one minute, limit %d", d, s.ddrpm), nil
 			}
 		case m.GetDialResponse() != nil:
 			q.resp = m.GetDialResponse()
@@ -1688,6 +1766,10 @@ func TestVerifC16Server(t *testing.T) {
 	for k, v := range stats {
 		res.Set(k, v)
 	}
+	used := 0
+	vfC16PrivUsed.Range(func(_, _ any) bool { used++; return true })
+	res.Set("non_public_table_size", len(vfC16Priv))
+	res.Set("non_public_table_used", used)
 }
 
 // TestVerifC16Concurrent: concurrent requests of one or two peers.  Requests are PARKED inside the server
@@ -1790,7 +1872,7 @@ func TestVerifC16Concurrent(t *testing.T) {
 					st.feed(req(obs.other[0]))
 				case 4:
 					kind = "refused"
-					st.feed(req(vfC16Priv[0], vfC16Undial[0]))
+					st.feed(req(sys.nextPriv(), vfC16Undial[0]))
 				default:
 					kind = "garbage"
 					st.feed([]byte{5, 0xff, 0xff, 0xff, 0xff, 0xff})
@@ -1838,5 +1920,316 @@ func TestVerifC16Concurrent(t *testing.T) {
 	}
 	for k, v := range kinds {
 		res.Set("n_"+k, v)
+	}
+}
+
+// ---------------------------------------------------------------------------------------------
+// Part (c): interleaved concurrent requests (spec/C16_Interleave.tla)
+// ---------------------------------------------------------------------------------------------
+
+// vfC16Ledger is the L1 monitor of part (c): it is fed only by what the harness itself sees (handlers
+// entering / leaving, responses, dials), never by the limiter's counters.
+type vfC16Ledger struct {
+	rpm, ppr, ddr, cap int
+	admitted           []time.Time
+	peerAdmitted       map[string][]time.Time
+	ddServed           []time.Time
+}
+
+func (l *vfC16Ledger) admit(p string) (string, string) {
+	now := time.Now()
+	l.admitted = append(vfC16Trim(l.admitted, now), now)
+	l.peerAdmitted[p] = append(vfC16Trim(l.peerAdmitted[p], now), now)
+	if g, _ := vfC16InWindow(l.admitted, now); g > l.rpm {
+		return "server-window-global", fmt.Sprintf("%d requests served within one minute, RPM %d", g, l.rpm)
+	}
+	if g, _ := vfC16InWindow(l.peerAdmitted[p], now); g > l.ppr {
+		return "server-window-peer", fmt.Sprintf("%d requests of one peer served within one minute, PerPeerRPM %d", g, l.ppr)
+	}
+	return "", ""
+}
+func (l *vfC16Ledger) served() (string, string) {
+	now := time.Now()
+	l.ddServed = append(vfC16Trim(l.ddServed, now), now)
+	if d, _ := vfC16InWindow(l.ddServed, now); d > l.ddr {
+		return "server-window-dialdata", fmt.Sprintf("%d requests that required dial data served within one minute (overlapping requests), DialDataRPM %d", d, l.ddr)
+	}
+	return "", ""
+}
+
+type vfC16Inter struct {
+	sys    *vfC16Srv
+	led    *vfC16Ledger
+	slots  map[string]*vfC16Req
+	peerOf map[string]string
+	obs    vfC16Obs
+}
+
+func (it *vfC16Inter) inService(p string) int {
+	n := 0
+	for sl, q := range it.slots {
+		if q != nil && !q.isDone() && it.peerOf[sl] == p {
+			n++
+		}
+	}
+	return n
+}
+
+// after applies the L1 clauses to what the request did in this step; returns the observed response.
+func (it *vfC16Inter) after(sl string, q *vfC16Req, first bool) (resp, cls, what string, got any) {
+	p := it.peerOf[sl]
+	msgs, err := q.st.nextMsgs()
+	if err != nil {
+		return "", "L2:server-output", err.Error(), nil
+	}
+	for _, m := range msgs {
+		if d := m.GetDialDataRequest(); d != nil {
+			q.asked, q.baseRead = int64(d.NumBytes), q.st.nread()
+			resp = "DATAREQ"
+			if d.NumBytes < 30_000 || d.NumBytes > 100_000 {
+				return resp, "asked-bytes-out-of-range", fmt.Sprintf("server asked for %d bytes", d.NumBytes), nil
+			}
+		}
+		if r := m.GetDialResponse(); r != nil {
+			q.resp = r
+			resp = vfC16StatusName[r.Status]
+		}
+	}
+	if resp == "" {
+		if q.isDone() {
+			resp = "RESET"
+		} else {
+			resp = "PARKED"
+		}
+	}
+	if first && resp != "REJECTED" {
+		if c, w := it.led.admit(p); c != "" {
+			return resp, c, w, nil
+		}
+	}
+	if n := it.inService(p); n > it.led.cap {
+		return resp, "concurrent-cap", fmt.Sprintf("%d requests of one peer served concurrently, MaxConcurrentRequestsPerPeer=%d", n, it.led.cap), nil
+	}
+	for _, e := range it.sys.dialer.takeEvents() {
+		q.dials = append(q.dials, e)
+		if e.Peer != p {
+			return resp, "dial-wrong-peer", fmt.Sprintf("%s to peer %q, requester is %q", e.Kind, e.Peer, p), e
+		}
+		for i, ab := range e.addrBytes {
+			k, ok := q.kindOf[string(ab)]
+			if !ok {
+				return resp, "dial-address-not-requested", fmt.Sprintf("%s with address %s which is not in the request", e.Kind, e.Addrs[i]), e
+			}
+			if k == vfC16NotDialable {
+				return resp, "undialable-request-dialed", fmt.Sprintf("%s to %s", e.Kind, e.Addrs[i]), e
+			}
+			if k == vfC16Other && (q.asked == 0 || q.delivered(e.Read) < q.asked) {
+				return resp, "dial-before-data", fmt.Sprintf("%s to %s after %d of %d asked bytes", e.Kind, e.Addrs[i], q.delivered(e.Read), q.asked), e
+			}
+		}
+		if q.asked > 0 && !q.ddCounted {
+			q.ddCounted = true
+			if c, w := it.led.served(); c != "" {
+				return resp, c, w, e
+			}
+		}
+	}
+	return resp, "", "", nil
+}
+
+func (it *vfC16Inter) step(op vfh.Op) (cls, what string, exp, got any) {
+	sl := op.S("s")
+	var resp string
+	switch op.Name() {
+	case "minute":
+		time.Sleep(vfC16Window + time.Second)
+		return "", "", nil, nil
+	case "start":
+		st := vfC16NewStream(peer.ID(it.peerOf[sl]), ma.StringCast(it.obs.observed), 0)
+		it.sys.dialer.setOutcome("ok")
+		q := it.sys.start(st)
+		it.slots[sl] = q
+		it.sys.settle(q)
+		resp, cls, what, got = it.after(sl, q, true)
+	case "send":
+		q := it.slots[sl]
+		if q == nil || q.isDone() {
+			return "L2:harness", "send on a request that is not parked", nil, nil
+		}
+		var raw [][]byte
+		add := func(a string, k int) {
+			b := ma.StringCast(a).Bytes()
+			raw = append(raw, b)
+			q.kindOf[string(b)] = k
+		}
+		switch op.S("kind") {
+		case "refused":
+			add(it.sys.nextPriv(), vfC16NotDialable)
+			add(vfC16Undial[it.sys.rnd.Intn(len(vfC16Undial))], vfC16NotDialable)
+		case "same":
+			add(it.obs.same[it.sys.rnd.Intn(len(it.obs.same))], vfC16Same)
+		case "other":
+			add(it.obs.other[it.sys.rnd.Intn(3)], vfC16Other) // ip forms only
+		}
+		if op.S("kind") == "bad" {
+			q.st.feed([]byte{5, 0xff, 0xff, 0xff, 0xff, 0xff})
+		} else {
+			q.st.feed(vfC16Delim(&pb.Message{Msg: &pb.Message_DialRequest{DialRequest: &pb.DialRequest{Addrs: raw, Nonce: 9}}}))
+		}
+		it.sys.settle(q)
+		resp, cls, what, got = it.after(sl, q, false)
+	case "pay":
+		q := it.slots[sl]
+		if q == nil || q.isDone() || q.asked == 0 {
+			return "L2:harness", "pay on a request that does not wait for dial data", nil, nil
+		}
+		it.sys.send(q, it.sys.split(q.asked-q.sent, 1+it.sys.rnd.Intn(2)))
+		it.sys.settle(q)
+		resp, cls, what, got = it.after(sl, q, false)
+	case "close":
+		q := it.slots[sl]
+		if q == nil || q.isDone() {
+			return "L2:harness", "close on a request that is not in flight", nil, nil
+		}
+		q.st.clientClose()
+		it.sys.settle(q)
+		resp, cls, what, got = it.after(sl, q, false)
+	default:
+		return "L2:unknown-op", op.Name(), nil, nil
+	}
+	if cls != "" {
+		return cls, what, op.S("resp"), got
+	}
+	if resp != op.S("resp") {
+		return "L2:response", fmt.Sprintf("%s(%s): server answered %s, model %s", op.Name(), sl, resp, op.S("resp")), op.S("resp"), resp
+	}
+	q := it.slots[sl]
+	dialed := false
+	for _, e := range q.dials {
+		if e.Kind == "connect" {
+			dialed = true
+		}
+	}
+	if q.isDone() && dialed != op.B("dial") {
+		return "L2:dial", "dial differs from the model", op.B("dial"), dialed
+	}
+	return "", "", nil, nil
+}
+
+// pursue: the server left the model.  Every request that waits for dial data gets all of it, every other one
+// is closed; the ledger judges what the server finally served.
+func (it *vfC16Inter) pursue() (string, string, any) {
+	var names []string
+	for sl := range it.slots {
+		names = append(names, sl)
+	}
+	sort.Strings(names)
+	for _, sl := range names {
+		q := it.slots[sl]
+		if q == nil || q.isDone() {
+			continue
+		}
+		if q.asked > 0 && q.sent < q.asked {
+			it.sys.send(q, it.sys.split(q.asked-q.sent, 1))
+		} else {
+			q.st.clientClose()
+		}
+		it.sys.settle(q)
+		if _, c, w, g := it.after(sl, q, false); c != "" && !strings.HasPrefix(c, "L2:") {
+			return c, w, g
+		}
+	}
+	return "", "", nil
+}
+
+// TestVerifC16Interleave replays every transition of the interleaving model on the real server: the
+// scripted streams are the gates that hold a request "parked reading the request" / "parked reading dial
+// data" while the other requests take their steps.
+func TestVerifC16Interleave(t *testing.T) {
+	res := vfh.NewResult()
+	vfC16L2.Store(0)
+	defer func() {
+		if err := res.Write(); err != nil {
+			t.Fatal(err)
+		}
+	}()
+	files, _ := filepath.Glob(filepath.Join(vfh.In(), "int_*.jsonl"))
+	if len(files) == 0 {
+		t.Fatalf("no interleaving behaviour files in %q", vfh.In())
+	}
+	res.Rule = "one case = one (source state, action) transition of the interleaving model = one step of one of several concurrent requests on the real server (others parked at their stream gates); every case feeds the harness's ledger: requests in service per peer <= cap, admitted per window <= RPM / PerPeerRPM, dial-data requests served per window <= DialDataRPM"
+	for _, f := range files {
+		hdr, walks, err := vfh.LoadWalks(f)
+		if err != nil {
+			t.Fatalf("%s: %v", f, err)
+		}
+		rpm, ppr, ddr, cap := vfC16Int(hdr, "RPM"), vfC16Int(hdr, "PerPeerRPM"), vfC16Int(hdr, "DDRPM"), vfC16Int(hdr, "Cap")
+		cfg := map[string]any{"file": filepath.Base(f), "RPM": rpm, "PerPeerRPM": ppr, "DDRPM": ddr, "Cap": cap}
+		for _, w := range walks {
+			synctest.Test(t, func(t *testing.T) {
+				sys := vfC16NewSrv(t, rpm, ddr, cap, vfh.Seed()*6151+int64(w.Walk))
+				defer sys.dialer.Close()
+				sys.srv.limiter.PerPeerRPM = ppr
+				it := &vfC16Inter{sys: sys, slots: map[string]*vfC16Req{}, peerOf: map[string]string{}, obs: vfC16Observed[sys.rnd.Intn(len(vfC16Observed))],
+					led: &vfC16Ledger{rpm: rpm, ppr: ppr, ddr: ddr, cap: cap, peerAdmitted: map[string][]time.Time{}}}
+				for _, sl := range hdr["Slots"].([]any) {
+					p := "vf-peer-a"
+					if strings.HasPrefix(sl.(string), "b") {
+						p = "vf-peer-b"
+					}
+					it.peerOf[sl.(string)] = p
+				}
+				var prefix []vfh.Op
+				prev := string(w.Init)
+				for i, st := range w.Steps {
+					prefix = append(prefix, st.Op)
+					cls, what, exp, got := it.step(st.Op)
+					res.Case(filepath.Base(f) + "|" + prev + "|" + vfh.Canon(st.Op))
+					prev = string(st.State)
+					if cls == "" {
+						// L2: the limiter's own counters against the model
+						var m map[string]any
+						json.Unmarshal(st.State, &m)
+						l := sys.srv.limiter
+						l.mu.Lock()
+						acc, dd := 0, 0
+						for _, e := range l.reqs {
+							if time.Since(vfC16T(e.Time)) < vfC16Window {
+								acc++
+							}
+						}
+						for _, x := range l.dialDataReqs {
+							if time.Since(vfC16T(x)) < vfC16Window {
+								dd++
+							}
+						}
+						ipa, ipb := l.inProgressReqs["vf-peer-a"], l.inProgressReqs["vf-peer-b"]
+						l.mu.Unlock()
+						mi, _ := m["inProg"].(map[string]any)
+						want := fmt.Sprintf("acc=%d dd=%d inProg=%d/%d", vfC16Int(m, "acc"), vfC16Int(m, "dd"), vfC16Int(mi, "pa"), vfC16Int(mi, "pb"))
+						if have := fmt.Sprintf("acc=%d dd=%d inProg=%d/%d", acc, dd, ipa, ipb); have != want {
+							cls, what, exp, got = "L2:limiter-counters", "limiter counters differ from the model after "+st.Op.Name(), want, have
+						}
+					}
+					res.Count(0, 1)
+					if cls != "" {
+						vfC16Add(res, vfh.Mismatch{Class: cls, What: what, Walk: w.Walk, Step: i, Expected: exp, Got: got, Prefix: prefix, Cfg: cfg})
+						if strings.HasPrefix(cls, "L2:") {
+							if c, ww, g := it.pursue(); c != "" {
+								vfC16Add(res, vfh.Mismatch{Class: c, What: ww + " (after the server left the model: " + cls + "; outstanding dial data was then supplied)", Walk: w.Walk, Step: i, Got: g, Prefix: prefix, Cfg: cfg})
+							}
+						}
+						break
+					}
+				}
+				for _, q := range it.slots {
+					if q != nil && !q.isDone() {
+						q.st.clientClose()
+						sys.settle(q)
+					}
+				}
+				res.Count(1, 0)
+			})
+		}
 	}
 }
